@@ -44,11 +44,11 @@ def generate(rng, tier):
     n1, n2 = (8000, 10000) if tier == "quick" else (80000, 100000)
     for i in range(n1):
         prog = X.gen_program(rng, rng.randint(3, 10), 0, p_always=0.2)
-        ops = X.gen_ops(rng, prog, rng.randint(10, 50), w=(0.40, 0.06, 0.54, 0, 0, 0), vals=(0, 1, 1, 2))
+        ops = X.gen_ops(rng, prog, rng.randint(10, 50), w=(0.40, 0.06, 0.54, 0, 0, 0), vals=(0, 1, 1, 2), p_drop=0.3)
         yield dict(case=C.norm([prog, ops]), kind="memos", compare=True)
     for i in range(n2):
         prog = X.gen_program(rng, rng.randint(4, 11), rng.randint(1, 3), p_always=0.15)
-        ops = X.gen_ops(rng, prog, rng.randint(8, 36), w=(0.32, 0.05, 0.2, 0.18, 0.2, 0.05), vals=(0, 1, 1, 2))
+        ops = X.gen_ops(rng, prog, rng.randint(8, 36), w=(0.32, 0.05, 0.2, 0.18, 0.2, 0.05), vals=(0, 1, 1, 2), p_drop=0.3)
         yield dict(case=C.norm([prog, ops]), kind="memos+effects", compare=True)
 
 
